@@ -37,6 +37,8 @@ Fixpoint build (f : Field) : option Builder :=
     | DPrim p => if prim_built p then Some (BdPrim p (new_validity nullable) []) else None
     | DBytes BUtf8 => Some (BdUtf8 BUtf8 (new_validity nullable) [0%Z] [])
     | DBytes BLargeUtf8 => Some (BdUtf8 BLargeUtf8 (new_validity nullable) [0%Z] [])
+    | DBytes BBinary => Some (BdUtf8 BBinary (new_validity nullable) [0%Z] [])
+    | DBytes BLargeBinary => Some (BdUtf8 BLargeBinary (new_validity nullable) [0%Z] [])
     | DList k cf =>
       match build cf with
       | Some cb => Some (BdList k (new_validity nullable) [0%Z] (meta_of cf) cb)
@@ -209,6 +211,15 @@ Section Loops.
     end.
 End Loops.
 
+(* BinaryBuilder: serialize_bytes, or a sequence / tuple of u8 collected element by element (a str is refused) *)
+Definition binary_of_value (v : Value) : Outcome (list N) :=
+  match v with
+  | VBytes s => Ok s
+  | VSeq l | VTuple l | VTupleStruct l =>
+    match iall_then (map byte_of_value l) (fun vs => IOk (LBytes (bytes_of_lvals vs))) with IOk (LBytes s) => Ok s | _ => Err end
+  | _ => Err
+  end.
+
 (* a scalar pushed into a leaf builder (what `push` does for scalars); used for the bytes of a
    `serialize_bytes` call on a list column, which are pushed one by one as u8 into the child *)
 Definition push_scalar (v : Value) (b : Builder) : Outcome Builder :=
@@ -222,6 +233,7 @@ Definition push_scalar (v : Value) (b : Builder) : Outcome Builder :=
     do z <- prim_value k v ;;
     do val' <- set_validity val (length vals) true ;; Ok (BdPrim k val' (vals ++ [z]))
   | BdUtf8 k val offs data =>
+    if is_utf8_kind k then
     match text_of_scalar v with
     | IOk (LBytes s) =>
       do val' <- set_validity val (length offs - 1) true ;;
@@ -229,6 +241,7 @@ Definition push_scalar (v : Value) (b : Builder) : Outcome Builder :=
       Ok (BdUtf8 k val' offs' (data ++ s))
     | _ => Err
     end
+    else Err      (* a u8 presented to a binary child of a list column: refused *)
   | _ => Err
   end.
 
@@ -248,6 +261,7 @@ Fixpoint push (v : Value) (b : Builder) {struct v} : Outcome Builder :=
       do val' <- set_validity val (length vals) true ;; Ok (BdPrim k val' (vals ++ [z]))
     | BdUtf8 k val offs data =>
       (* str, and char / bool / integers / unit variants through to_string (floats: not modelled) *)
+      if is_utf8_kind k then
       match text_of_scalar v with
       | IOk (LBytes s) =>
         do val' <- set_validity val (length offs - 1) true ;;
@@ -255,6 +269,11 @@ Fixpoint push (v : Value) (b : Builder) {struct v} : Outcome Builder :=
         Ok (BdUtf8 k val' offs' (data ++ s))
       | _ => Err
       end
+      else
+      do s <- binary_of_value v ;;
+      do val' <- set_validity val (length offs - 1) true ;;
+      do offs' <- increment_last (is_wide k) (duplicate_last offs) (length s) ;;
+      Ok (BdUtf8 k val' offs' (data ++ s))
     | BdList k val offs m e =>
       match v with
       | VSeq l | VTuple l | VTupleStruct l =>
